@@ -43,7 +43,14 @@ func Sprites(r *rig.Rng) *Program {
 	io(0x47, 0xe4)
 	io(0x48, 0xe4)
 	io(0x49, 0x1b)
-	io(0x40, 0x93)   // LCD on, BG on, objects on
+	lcdc := uint8(0x93) // LCD on, BG on, objects on
+	if r.Bool() {
+		// and the window over part of the screen
+		io(0x4a, uint8(r.Intn(120)))
+		io(0x4b, uint8(7+r.Intn(140)))
+		lcdc |= 0x20
+	}
+	io(0x40, lcdc)
 	emit(0x18, 0xfe) // JR -2
 	h := rig.NewHasher()
 	h.B(rom[:0x4000])
